@@ -187,9 +187,12 @@ def r4_counter_balance(ctx):
     tables fill whole rows consecutively from row 0 and stay below the allocated capacity, the table handed back holds exactly the rows
     written (stated with the program's own exit expression, whatever counter it keeps), both tables have the same number of rows, and the
     counts sum to (L-1)/2.  Abstract interpretation (Karr's affine equalities + lower bounds + template inequalities, invariants inferred per
-    program) of the transition system of each implementation."""
+    program) of the transition system of each implementation.  What the inferred invariant does not yield is a VIOLATION when an input of the
+    finite world of c05_world breaks it (the witness is reported), and undecided otherwise."""
     from .e8_karr import V
+    from . import c05_world as W
     impl = _load(ctx)
+    cache = ctx.__dict__.setdefault("_c05world", {})
     for (side, nm), a in impl.items():
         ts = a["raw0"]
         ex = ts.ex
@@ -206,12 +209,28 @@ def r4_counter_balance(ctx):
         if an is None:
             ctx.error(f"{tag}: abstract interpretation gave up: {why}", where)
             continue
+        found = {}
+
+        def settle(ok, text, cat, detail, key=None, found=found, ts=ts, side=side, nm=nm, where=where):
+            """ok: derived from the invariant.  Otherwise: a violation with a witness of category `cat` from the finite world, else undecided"""
+            if ok:
+                ctx.ok(text, where)
+                return
+            if cat not in found:
+                found.update(W.r4_witness(ts, (cat,), cache, (side, nm)))
+                found.setdefault(cat, None)
+            if found[cat] is not None:
+                ctx.fail(text, where, {"not derivable from": detail, "witness": found[cat]}, key=key)
+            else:
+                ctx.error(text + " -- not decided: not derivable from the inferred invariant, and no input of the finite world (lengths 2..6) "
+                                 "breaks it", where, detail)
         seen = set()
         for desc, ok, strepr in an.obl:
             if (desc, ok) in seen:
                 continue
             seen.add((desc, ok))
-            ctx.check(ok, f"{tag}: {desc}", where, None if ok else f"not derivable from the invariant {strepr}")
+            cat = "bounds" if (": read " in desc or ": write " in desc) else "rows"
+            settle(ok, f"{tag}: {desc}", cat, f"the invariant {strepr}")
         rows = {b: V(f"#rows:{b}") for b in outs}
         nexit = 0
         for i, e in enumerate(edges):
@@ -219,7 +238,7 @@ def r4_counter_balance(ctx):
                 continue
             for var, st, out in an.at.get(i, []):
                 if e["dst"] != Y.END:
-                    ctx.fail(f"{tag}: {e['label']}: the counter gives up on an input of length >= 2 ({e['dst']})", where, repr(st))
+                    settle(False, f"{tag}: {e['label']}: the counter does not give up on an input of length >= 2 ({e['dst']})", "exit", repr(st))
                     continue
                 nexit += 1
                 rets = _returned(e["trans"]["ret"])
@@ -231,17 +250,15 @@ def r4_counter_balance(ctx):
                 for r in rets:
                     if r[0] == "view":
                         ok = out.entails_eq(rows[r[1]] - r[2])
-                        ctx.check(ok, f"{tag}: {e['label']}: the returned prefix {r[1]}[:{r[2]}] is exactly the rows written", where, None if ok else repr(out))
+                        settle(ok, f"{tag}: {e['label']}: the returned prefix {r[1]}[:{r[2]}] is exactly the rows written", "exit", repr(out))
                     else:
                         ok = out.entails_eq(rows[r[1]] - outs[r[1]][0])
-                        ctx.check(ok, f"{tag}: {e['label']}: {r[1]} is returned whole and is full (rows written == {outs[r[1]][0]} allocated)", where,
-                                  None if ok else repr(out))
+                        settle(ok, f"{tag}: {e['label']}: {r[1]} is returned whole and is full (rows written == {outs[r[1]][0]} allocated)", "exit", repr(out))
                 ok = out.entails_eq(V("#full") + rows["rf"] - (L - 1))
-                ctx.check(ok, f"{tag}: {e['label']}: 2 * sum(counts) = 2*full + half = L - 1 (every interval between successive points is counted once)", where,
-                          None if ok else repr(out))
+                settle(ok, f"{tag}: {e['label']}: 2 * sum(counts) = 2*full + half = L - 1 (every interval between successive points is counted once)", "exit", repr(out))
                 if a["offsets"]:
                     ok = out.entails_eq(rows["rf"] - rows["os"])
-                    ctx.check(ok, f"{tag}: {e['label']}: as many offset rows as value rows", where, None if ok else repr(out))
+                    settle(ok, f"{tag}: {e['label']}: as many offset rows as value rows", "exit", repr(out))
         SEM.bound(ctx, nexit >= 1, f"{tag}: the counter returns on {nexit} path(s)", where)
 
 
@@ -814,8 +831,8 @@ RULES = [
     ("C05-R2", r2_erasure, 8),
     ("C05-R3", r3_astm, 16),
     ("C05-R4", r4_counter_balance, 200),
-    ("C05-R5", r5_lockstep, 12),
-    ("C05-R6", r6_value_flow, 150),
+    ("C05-R5", r5_lockstep, 28),
+    ("C05-R6", r6_value_flow, 250),
     ("C05-R7", r7_selection, 30),
     ("C05-R8", r8_buffers, 40),
     ("C05-R9", r9_wrapper_transparency, 16),
@@ -823,17 +840,24 @@ RULES = [
 LEVEL = "translation_validation"
 TRUSTED = ["clang-14 front end (parser/preprocessor of c_rain.c, -ast-dump=json)", "CPython ast", "verifier/e7_rainir.py lowering",
            "verifier/e7_sym.py symbolic execution (models of calloc/free, the numpy/CPython allocation, slicing and reference-count calls)",
-           "IEEE-754 evaluation of identical expression trees by the C compiler and CPython/numba (x / 2^k and 2^-k * x, |a - b| and |b - a| identified)"]
+           "IEEE-754 evaluation of identical expression trees by the C compiler and CPython/numba (x / 2^k and 2^-k * x, |a - b| and |b - a| identified)",
+           "verifier/c05_world.py: execution of the checker's own transition systems on a finite world of inputs - used only to confirm a reported "
+           "difference with a concrete witness, never to discharge an obligation"]
 EXPLANATION = ("Static translation validation between the two rainflow implementations: both are lowered (clang JSON AST / Python ast) to one "
                "structured IR (one loop form, explicit side effects, helpers inlined) and executed symbolically into a transition system between loop "
-               "heads; the systems are compared semantically - by the effect of every path between two loop heads on the reversal stack, the emitted rows "
+               "heads (boolean / small-enum locals that only hold constants are part of the control state: a head is cut under one setting of its live "
+               "flags, paths under other settings run through it; counter-only ways out of a loop are composed into the paths that arrive at the head, "
+               "so it does not matter where the source makes the test); the systems are compared semantically - by the effect of every path between two loop heads on the reversal stack, the emitted rows "
                "and the counters - up to a change of variables derived from each program (re-based / re-scaled counters, merged equal counters, cached "
                "array elements); each is compared the same way with a transcription of ASTM E1049-85 5.4.4; offsets are in lock-step with values; data "
                "reaches control flow only through |p-q| < |r-s|; an abstract interpretation (affine equalities + template inequalities, "
                "verifier/e8_karr.py, invariants inferred per program) proves every buffer index in range, output rows written consecutively and below "
                "capacity, the returned prefix == the rows written (in the program's own exit expression) and 2*sum(counts) == L-1; calloc/free pairing; "
                "element types: every buffer the Python kernels compute ranges in is float64 whatever the caller's dtype (or the entry point converted "
-               "the sequence to float64), the C entry point converts to NPY_DOUBLE what the kernels read as double*.")
+               "the sequence to float64), the C entry point converts to NPY_DOUBLE what the kernels read as double*.  A difference between two "
+               "systems (C05-R1..R3), or a bound / balance the invariants do not yield (C05-R4), is reported as a VIOLATION only with a witness: an "
+               "input of a finite world (lengths 2..6, ties, permutations, NaN, tiny scale, near-ties) on which the lowered programs return "
+               "different tables (or break the bound); without one the obligation is undecided (exit 2).")
 MANIFEST = {
     "text": "Decided statically for all inputs of length >= 2: the C and Python counting loops are the same transition system (same decisions, same effect "
             "of every path between loop heads on the stack, the output rows and the counters, identical floating-point expression trees up to x/2 == 0.5*x "
